@@ -252,7 +252,8 @@ pub fn is_simple_count_star<'a>(
                 return None;
             }
             let agg_expr = &agg.aggregates[0];
-            if agg_expr.function != AggregateFunction::Count || agg_expr.distinct {
+            // only COUNT(*) equals the stored row count: COUNT(col) must skip NULLs
+            if agg_expr.function != AggregateFunction::Count || agg_expr.distinct || agg_expr.argument.is_some() {
                 return None;
             }
             match agg.input {
